@@ -259,6 +259,29 @@ func (x *Exec) store(addr *value, v value) {
 		x.rtPanic("invalid memory address or nil pointer dereference")
 	}
 	x.noteWrite(addr)
+	storeInPlace(addr, v)
+}
+
+// storeInPlace keeps interior pointers (&struct.field, &array[i]) valid: aggregates are
+// overwritten element by element instead of being replaced.
+func storeInPlace(addr *value, v value) {
+	switch rhs := v.(type) {
+	case structure:
+		if lhs, ok := (*addr).(structure); ok && len(lhs) == len(rhs) {
+			for i := range lhs {
+				storeInPlace(&lhs[i], rhs[i])
+			}
+			return
+		}
+	case array:
+		if lhs, ok := (*addr).(array); ok && len(lhs) == len(rhs) {
+			tmp := copyVal(rhs).(array)
+			for i := range lhs {
+				storeInPlace(&lhs[i], tmp[i])
+			}
+			return
+		}
+	}
 	*addr = copyVal(v)
 }
 
